@@ -52,6 +52,8 @@ def run(chk):
     instance(chk, "deep", 5 if thorough else 4, ["Sneg", "S201", "S404", "W0", "W1", "Wshort", "F", "E404"] if thorough
              else ["S0", "S201", "S404", "W1", "Werr", "F", "E404"])
     redispatch(chk, WR)
+    # the built-in 404 / 405 / OPTIONS answers on a router without any middleware: one commit, with the right status
+    c04.instance(chk, "builtin", "uniform", 1, 1, ["D404", "D405", "DOPT"], kinds=("default",), only=WR, extra_invs=("DispatchOK",))
     c04.library(chk, WR, maxn=3 if thorough else 2, extra=("N", "W"))
     chk.exhaustive = True
     c04.recorded(chk, 2000 if thorough else 300, WR)
